@@ -311,7 +311,8 @@ Definition holds (k : call) : bool :=
    worker holding c's item) | 6 FinishCall c kind v | 7 CheckCancelledCall c | 8 SetTotal n.
    Thread ops name the call; the codec looks up the worker.  With auto = 1 every scripted op is followed by `settle`
    (everything the loop and the threads do on their own until quiescence), which is what the harness can observe
-   with real threads.  Output: per op 8 integers, then per call 4 integers. *)
+   with real threads.  Output: per op 8 integers, then per call 4 integers
+   [kind; value; post-checkpoint cancelled; previous call on the same worker + 1 (0 fresh, -1 never handed)]. *)
 
 Definition find_worker (s : st) (c : cid) (queued : bool) : option wid :=
   find (fun w => match wk s w with
@@ -378,7 +379,20 @@ Definition observe (n : nat) (s : st) (r : res) : list Z :=
    mask (fun c => mem_c c (exec s)) n; mask (fun c => is_done (calls s c)) n;
    nz (n_workers s); nz (length (idle s))].
 
-Definition final_obs (s : st) (c : cid) : list Z :=
+(* Worker identities are not comparable with the implementation (threads created in the same loop cycle signal in a
+   racy order), so the codec reports, per call, the call that used the same worker last before it (+1; 0 = a fresh
+   worker).  `hist` = (worker, last call handed to it), newest first; `pv` = the answer per call. *)
+Definition lookup_hist (w : wid) (hist : list (wid * cid)) : Z :=
+  match find (fun x => Nat.eqb (fst x) w) hist with Some (_, d) => nz (S d) | None => 0%Z end.
+
+Definition track (n : nat) (s0 s1 : st) (hp : list (wid * cid) * (cid -> Z)) : list (wid * cid) * (cid -> Z) :=
+  fold_left (fun (acc : list (wid * cid) * (cid -> Z)) c =>
+               match ranon (calls s0 c), ranon (calls s1 c) with
+               | None, Some w => ((w, c) :: fst acc, upd (snd acc) c (lookup_hist w (fst acc)))
+               | _, _ => acc
+               end) (seq 0 n) hp.
+
+Definition final_obs (s : st) (pv : cid -> Z) (c : cid) : list Z :=
   let k := calls s c in
   (match ph k with
    | PDone DCancelled => [2; 0; 0]
@@ -386,19 +400,19 @@ Definition final_obs (s : st) (c : cid) : list Z :=
    | PDone (DRet (OExn e) p) => [3; nz e; bz p]
    | PDone (DRet ORuntime p) => [4; 0; bz p]
    | _ => [7; 0; 0]
-   end ++ [oz (ranon k)])%Z.
+   end ++ [match ranon k with Some _ => pv c | None => (-1) end])%Z.
 
-Fixpoint run_obs (auto : bool) (n : nat) (s : st) (l : list Z) : list Z :=
+Fixpoint run_obs (auto : bool) (n : nat) (s : st) (hp : list (wid * cid) * (cid -> Z)) (l : list Z) : list Z :=
   match l with
   | code :: a :: b :: c :: r =>
       let '(s1, out) := do_op s code a b c in
       let s2 := if auto then settle 8 n s1 else s1 in
-      observe n s2 out ++ run_obs auto n s2 r
-  | _ => flat_map (final_obs s) (seq 0 n)
+      observe n s2 out ++ run_obs auto n s2 (track n s s2 hp) r
+  | _ => flat_map (final_obs s (snd hp)) (seq 0 n)
   end.
 
 Definition run_case (c : list Z) : list Z :=
   match c with
-  | tot :: pr :: n :: auto :: r => run_obs (zb auto) (zn n) (init (zn tot) (zb pr)) r
+  | tot :: pr :: n :: auto :: r => run_obs (zb auto) (zn n) (init (zn tot) (zb pr)) ([], fun _ => 0%Z) r
   | _ => []
   end.
